@@ -168,6 +168,33 @@ impl World {
                 }
             }
         }
+        // (instrumented builds only: the sites `sync.*` exist only there) a task parked in front of EACH of its lock /
+        // once / atomic operations while one of the state-filling modules (grid/many) runs to completion on the
+        // other worker: a table that is emptied or wraps while somebody sits between two of its critical sections
+        {
+            let many: Vec<usize> = pool.iter().copied().filter(|i| tasks[*i].name.starts_with("w2/grid/many/") && tasks[*i].opt_name == "own" && tasks[*i].comments && !tasks[*i].script && info[*i].steps < 400_000).collect();
+            let mut seen: BTreeSet<(usize, usize, u32)> = BTreeSet::new();
+            for (site, v) in &by_site {
+                if !site.starts_with("sync.") {
+                    continue;
+                }
+                let count = |i: usize| info[i].sites.iter().filter(|s| *s == site).count();
+                let cands: Vec<usize> = v.iter().copied().filter(|i| tasks[*i].comments && !tasks[*i].opt_name.starts_with('c') && info[*i].steps < 600).collect();
+                let Some(&heavy) = cands.iter().max_by_key(|i| (count(**i), std::cmp::Reverse(**i))) else { continue };
+                // the module that uses the site most, and the modules that repeat the same few things (a memo is HIT on repeats)
+                let mut parked: Vec<usize> = vec![heavy];
+                parked.extend(cands.iter().copied().filter(|i| tasks[*i].name.starts_with("w2/grid/multi/repeats") && tasks[*i].opt_name == "own"));
+                for &a in &parked {
+                    for &b in &many {
+                        for (k, s) in info[a].sites.iter().enumerate() {
+                            if s.starts_with("sync.") && seen.insert((a, b, k as u32 + 1)) && (thorough || seen.len() <= 12_000) {
+                                preempt_list.push((a, b, k as u32 + 1));
+                            }
+                        }
+                    }
+                }
+            }
+        }
         let long_runs = if thorough { 256 } else { 32 };
         // siblings: modules of one workload directory hold the same kind of content (the same tag names,
         // attribute names, type names, in other arrangements) - which is where state keyed on too little
